@@ -4,6 +4,9 @@
 
 use std::collections::HashMap;
 use std::fmt::Debug;
+#[cfg(rufsm_verif)]
+use crate::verif_sync::mpsc::Sender;
+#[cfg(not(rufsm_verif))]
 use std::sync::mpsc::Sender;
 
 #[cfg(feature = "Debug")]
